@@ -305,3 +305,42 @@ CONTRACTS = CONTRACTS + [
              "false|NoneV|str": "dsw.spiderweb.decode#normal-vt", "false|Mat|str": "dsw.spiderweb.decode#normal-table-vt"}}),
     decode_variant(False, False), decode_variant(True, False), decode_variant(False, True), decode_variant(True, True),
 ]
+
+
+# ------------------------------------------------------------------------------------------------------------------ C18
+def shuffles_variant(seeded):
+    name = "dsw.spiderweb.create_random_shuffles#" + ("seed" if seeded else "noseed")
+    ens = {
+        "shape": "len(result) == ipow(4, observed_length) and len(result[0]) == 4",
+        "permutation-rows": "is_table(result, observed_length)",
+    }
+    inv = {
+        "done-rows-are-permutations": "forall(lambda v: 0 <= shuffles[v][0] <= 3 and 0 <= shuffles[v][1] <= 3 and 0 <= shuffles[v][2] <= 3 and 0 <= shuffles[v][3] <= 3 "
+                                      "and shuffles[v][0] != shuffles[v][1] and shuffles[v][0] != shuffles[v][2] and shuffles[v][0] != shuffles[v][3] "
+                                      "and shuffles[v][1] != shuffles[v][2] and shuffles[v][1] != shuffles[v][3] and shuffles[v][2] != shuffles[v][3], 0, _i)",
+        "other-rows-untouched": "forall(lambda v: shuffles[v][0] == 0 and shuffles[v][1] == 1 and shuffles[v][2] == 2 and shuffles[v][3] == 3, _i, ipow(4, observed_length))",
+    }
+    if seeded:
+        # reproducibility: the table is a function of (observed_length, seed) only - row i is the (i+1)-th shuffle after seed(seed)
+        ens["same-seed-same-table"] = "forall(lambda v: row_is(result, v, shuffled_row(random_seed, v)), 0, ipow(4, observed_length))"
+        inv["rows-are-the-seeded-shuffles"] = "forall(lambda v: row_is(shuffles, v, shuffled_row(random_seed, v)), 0, _i)"
+        inv["generator-state"] = "rng_is(random_seed, _i)"
+    return dict(
+        name=name, function="dsw.spiderweb.create_random_shuffles", variant_of="dsw.spiderweb.create_random_shuffles", n_loops=1,
+        candidates={"observed_length": [1, 2, 3], "random_seed": [0, 1, 7, 2021] if seeded else [None]},
+        params={"observed_length": "nat", "random_seed": "nat" if seeded else "none", "verbose": "false"},
+        requires={"order": "observed_length >= 1"},
+        returns="mat(ipow(4, observed_length), 4)",
+        ensures=ens, raises={},
+        ghost={"entry": "ipow_mono(4, 0, observed_length)", "loop1_end": "rng_tick = 0"} if False else {"entry": "ipow_mono(4, 0, observed_length)"},
+        loops={1: dict(binds="range(4 ** observed_length)", invariant=inv)},
+        rng_invariant=seeded,
+    )
+
+
+CONTRACTS = CONTRACTS + [
+    dict(name="dsw.spiderweb.create_random_shuffles", abstract=True,
+         dispatch={"param": "random_seed", "int": "dsw.spiderweb.create_random_shuffles#seed", "zero": "dsw.spiderweb.create_random_shuffles#seed",
+                   "NoneV": "dsw.spiderweb.create_random_shuffles#noseed"}),
+    shuffles_variant(True), shuffles_variant(False),
+]
